@@ -72,7 +72,7 @@ CHECKS = {
          "Trusted: directory model. Thread schedules are sampled; Miri seeds in thorough.",
          "DESIGN.md §4 C17"),
  "C08": ("fault_enumeration",
-         "runtime fault injection at verif_hooks points inside rotate(): crash images (directory copies) and planted filesystem obstacles at every step of every rotation, judged by the stream oracle and a retained-chunk check; real abort()ing children validate the images (thorough)",
+         "runtime fault injection at verif_hooks points inside rotate(): crash images (directory copies) and planted filesystem obstacles at every step of every rotation, judged by the stream oracle and a retained-chunk check; real abort()ing children validate the images (thorough); a failed rotation followed by more against a background_rotation build, appends watched by a watchdog",
          "For every generated history, every hook point (each archive shift and the final move/compress) of every rotation is used once as the point of process death and once as the point of a filesystem fault, with both continuations (same appender / restarted appender). The append must return Err without panicking; no acknowledged record may be lost at the fault, with the obstacle in place, or after recovery; rotation must work again once the obstruction is gone.",
          "Exhaustive over the hook points of each history; histories (window 1-4, base 0/1, both open modes, pre/post triggers) are sampled. Faults are non-empty directories at a step's destination; EIO/ENOSPC and power loss are not modelled.",
          "DESIGN.md §4 C08"),
